@@ -88,7 +88,9 @@ func runOne(h func(int), c Case) (res Result) {
 		}
 	}()
 	res = End()
-	res.Panic = pan
+	if pan != "" {
+		res.Panic = pan
+	}
 	res.Assume = assume
 	return res
 }
